@@ -393,7 +393,7 @@ def main():
             script = []
             for h in hs[:rng.randrange(1, 8)]:
                 L = struct.unpack_from("<I", a, h)[0]
-                script.append(rng.choice(("s", "n s", "r%d" % L, "r%d" % L, "e r%d" % L, "n n r%d" % L, "r%d" % (L + rng.choice((-1, 1, 4))))))
+                script.append(rng.choice(("s", "n s", "r%d" % L, "r%d" % L, "e r%d" % L, "n n r%d" % L, "r%d" % max(0, L + rng.choice((-1, 1, 4))))))
             script.append(rng.choice(("e", "n", "s", "r0", "r4", "e e")))
             casesB.append(f"ops {hexs0(a)} {' '.join(script)}")
             ms = mutations(rng, a, False)
